@@ -238,6 +238,9 @@ func (e *Engine) AnalyzeRootFree(fn *ssa.Function, args []*Val, free []*Val) ([]
 			p.Trunc = "internal: loop outcome escaped"
 		}
 		e.transplantScratch(p)
+		if e.transplantSubBuffer(p) {
+			continue // a read on a sub-buffer failing although the block it was built over holds the bytes: no such path
+		}
 		paths = append(paths, p)
 	}
 	if e.truncated != "" {
@@ -418,7 +421,7 @@ func (e *Engine) load(st *state, addr *Val, t types.Type) *Val {
 			case *types.Struct, *types.Pointer, *types.Signature, *types.Interface, *types.Slice:
 				recs = true
 			case *types.Basic:
-				recs = eu.Info()&types.IsString != 0 // (byte and number arrays are staged blocks, not tables)
+				recs = eu.Info()&types.IsString != 0 || (eu.Info()&types.IsNumeric != 0 && eu.Kind() != types.Uint8 && eu.Kind() != types.Int8) // (byte arrays are staged blocks, not tables)
 			}
 			if recs {
 				any := false
@@ -914,15 +917,33 @@ func (e *Engine) execFrom(st *state, fr *frame, b *ssa.BasicBlock, prev *ssa.Bas
 // order, `for _, step := range steps { step(buf) }`): summarising it would lose which function runs when, so it is
 // executed iteration by iteration – the index is a constant, so the loop test decides itself.
 func (e *Engine) unrollable(fr *frame, h *ssa.BasicBlock, body map[*ssa.BasicBlock]bool) bool {
+	hdr := h
 	iff, ok := h.Instrs[len(h.Instrs)-1].(*ssa.If)
 	if !ok {
 		return false
 	}
 	bo, ok := iff.Cond.(*ssa.BinOp)
+	if ok && (bo.Op == token.EQL || bo.Op == token.NEQ) && len(h.Succs) == 2 {
+		// `for i := 0; err == nil && i < n; i++`: the counter test is the second half of the condition
+		if c, isC := bo.Y.(*ssa.Const); isC && c.Value == nil {
+			next := h.Succs[0]
+			if bo.Op == token.NEQ {
+				next = h.Succs[1]
+			}
+			if body[next] && len(next.Instrs) > 0 {
+				if iff2, ok2 := next.Instrs[len(next.Instrs)-1].(*ssa.If); ok2 {
+					if bo2, ok3 := iff2.Cond.(*ssa.BinOp); ok3 && bo2.Op == token.LSS {
+						// (its operands are computed in that block: `len(table)` is re-evaluated there)
+						bo, h = bo2, next
+					}
+				}
+			}
+		}
+	}
 	if !ok || bo.Op != token.LSS {
 		return false
 	}
-	if def, isInstr := bo.Y.(ssa.Instruction); isInstr && body[def.Block()] {
+	if def, isInstr := bo.Y.(ssa.Instruction); isInstr && body[def.Block()] && def.Block() != h {
 		return false
 	}
 	if _, has := fr.env[bo.Y]; !has {
@@ -939,13 +960,35 @@ func (e *Engine) unrollable(fr *frame, h *ssa.BasicBlock, body map[*ssa.BasicBlo
 	}
 	// the counter: a header phi starting at a constant and stepped by a constant
 	okPhi := false
-	for _, in := range h.Instrs {
+	for _, in := range hdr.Instrs {
 		phi, isPhi := in.(*ssa.Phi)
 		if !isPhi {
 			break
 		}
 		if strings.Contains(phi.Comment, "rangeindex") {
 			okPhi = true
+		}
+		// an index loop written out: i := 0 … i++ (the phi starts at a constant and every back edge adds 1 to it)
+		if len(phi.Edges) >= 2 {
+			consts, steps, other := 0, 0, 0
+			for _, ed := range phi.Edges {
+				switch x := ed.(type) {
+				case *ssa.Const:
+					consts++
+				case *ssa.BinOp:
+					c, isC := x.Y.(*ssa.Const)
+					if x.Op == token.ADD && x.X == ssa.Value(phi) && isC && c.Value != nil && c.Int64() == 1 && body[x.Block()] {
+						steps++
+					} else {
+						other++
+					}
+				default:
+					other++
+				}
+			}
+			if consts == 1 && steps >= 1 && other == 0 && bo.X == ssa.Value(phi) {
+				okPhi = true
+			}
 		}
 	}
 	if !okPhi {
@@ -962,7 +1005,9 @@ func (e *Engine) unrollable(fr *frame, h *ssa.BasicBlock, body map[*ssa.BasicBlo
 			// (`for _, s := range [...]string{p.A, p.B}`)
 			if ix, isIx := in.(*ssa.Index); isIx {
 				if arr, isArr := ix.X.Type().Underlying().(*types.Array); isArr {
-					if eb, isB := arr.Elem().Underlying().(*types.Basic); !isB || eb.Info()&types.IsString != 0 {
+					if eb, isB := arr.Elem().Underlying().(*types.Basic); !isB || eb.Info()&types.IsString != 0 || (eb.Info()&types.IsNumeric != 0 && eb.Kind() != types.Uint8 && eb.Kind() != types.Int8) {
+						// (a short array of numbers written out – `range [...]int64{p.Price, p.Qty}` – is a table as well;
+						// byte arrays are staged blocks, not tables)
 						if def, isInstr := ix.X.(ssa.Instruction); !isInstr || !body[def.Block()] {
 							return true
 						}
@@ -986,7 +1031,7 @@ func (e *Engine) unrollable(fr *frame, h *ssa.BasicBlock, body map[*ssa.BasicBlo
 				if al, isAlloc := ia.X.(*ssa.Alloc); isAlloc && !body[al.Block()] {
 					if pt, isP := al.Type().Underlying().(*types.Pointer); isP {
 						if arr, isArr := pt.Elem().Underlying().(*types.Array); isArr {
-							if eb, isB := arr.Elem().Underlying().(*types.Basic); !isB || eb.Info()&types.IsString != 0 {
+							if eb, isB := arr.Elem().Underlying().(*types.Basic); !isB || eb.Info()&types.IsString != 0 || (eb.Info()&types.IsNumeric != 0 && eb.Kind() != types.Uint8 && eb.Kind() != types.Int8) {
 								return true
 							}
 						}
@@ -1405,6 +1450,7 @@ func (e *Engine) execLoop(st *state, fr *frame, h, prev *ssa.BasicBlock, body ma
 
 	// classify
 	var iters []*Arm
+	var iterOuts []*outcome
 	var exits, aborts []*outcome
 	for _, o := range outs {
 		switch o.kind {
@@ -1434,10 +1480,102 @@ func (e *Engine) execLoop(st *state, fr *frame, h, prev *ssa.BasicBlock, body ma
 				}
 			}
 			iters = append(iters, arm)
+			iterOuts = append(iterOuts, o)
 		case oLoopExit:
 			exits = append(exits, o)
 		default:
 			aborts = append(aborts, o)
+		}
+	}
+	// A "sticky" error in the loop condition – `for i := 0; i < n && err == nil; i++ { err = step() }`: a variable that
+	// is nil on entry, that every way through the body either leaves nil or sets to something provably non-nil, and
+	// that the loop condition tests before the body runs. A way through the body that sets it is the last iteration
+	// (the next test leaves the loop): the same as `if err != nil { break }` at the end of the body; and the test
+	// itself never fails after an iteration that left the variable nil.
+	counterBlock := h
+	for _, pi := range phis {
+		if !isNilable(pi.phi.Type()) || !pi.init.IsNilConst() || len(iters) == 0 {
+			continue
+		}
+		isStickyTest := func(c Cond) bool { // the condition says lv != nil
+			v := stripCT(c.V)
+			if v == nil || v.Op != "binop" || len(v.Args) != 2 || (v.Name != "!=" && v.Name != "==") {
+				return false
+			}
+			l, r := stripCT(v.Args[0]), stripCT(v.Args[1])
+			if r.Key() == pi.lv.Key() {
+				l, r = r, l
+			}
+			if l.Key() != pi.lv.Key() || !r.IsNilConst() {
+				return false
+			}
+			return (v.Name == "!=") == c.Taken
+		}
+		var sticky *outcome
+		for _, o := range exits {
+			cs := o.st.conds[base:]
+			onlySites := true
+			for _, ev := range o.st.events {
+				if ev.Kind != EvPanicSite {
+					onlySites = false
+				}
+			}
+			if onlySites && len(cs) > 0 && isStickyTest(cs[len(cs)-1]) && lc.body[o.exitFrom] {
+				// (left at the condition, before the body: nothing but the tests has happened)
+				if sticky != nil {
+					sticky = nil
+					break
+				}
+				sticky = o
+			}
+		}
+		if sticky == nil {
+			continue
+		}
+		okAll := true
+		var stay []int
+		var leave []int
+		for i, it := range iters {
+			n := it.Next[pi.lv.Name]
+			switch {
+			case n != nil && (n.IsNilConst() || n.Key() == pi.lv.Key()):
+				stay = append(stay, i)
+			case n != nil && nilness(n) == +1:
+				leave = append(leave, i)
+			default:
+				okAll = false
+			}
+		}
+		if !okAll || len(stay) == 0 {
+			continue
+		}
+		var nIters []*Arm
+		var nOuts []*outcome
+		for _, i := range stay {
+			// (inside these iterations the variable is nil: conditions on it are decided)
+			nIters = append(nIters, iters[i])
+			nOuts = append(nOuts, iterOuts[i])
+		}
+		var nExits []*outcome
+		for _, o := range exits {
+			if o != sticky {
+				nExits = append(nExits, o)
+			}
+		}
+		for _, i := range leave {
+			o := iterOuts[i]
+			fr2 := o.fr.clone()
+			for _, pj := range phis {
+				if nv := iters[i].Next[pj.lv.Name]; nv != nil {
+					fr2.env[pj.phi] = nv
+				}
+			}
+			nExits = append(nExits, &outcome{st: o.st, kind: oLoopExit, fr: fr2, exitTo: sticky.exitTo, exitFrom: sticky.exitFrom})
+		}
+		iters, iterOuts, exits = nIters, nOuts, nExits
+		// the counter test is the other half of the condition
+		if sticky.exitFrom == h && len(h.Succs) == 2 && lc.body[h.Succs[0]] {
+			counterBlock = h.Succs[0]
 		}
 	}
 	// constant step of each header phi (same on every back edge): recorded on the loop variable for monotonicity reasoning
@@ -1463,8 +1601,42 @@ func (e *Engine) execLoop(st *state, fr *frame, h, prev *ssa.BasicBlock, body ma
 			pi.lv.Aux = *step
 		}
 	}
+	// … and of a variable that is assigned from another one of known step (`end = i` beside `i--`): it moves in
+	// lock-step with that one when the assignment keeps the distance their initial values have
+	for _, pi := range phis {
+		if pi.lv.Aux != nil || len(iters) == 0 {
+			continue
+		}
+		for _, pj := range phis {
+			sj, okJ := pj.lv.Aux.(int64)
+			if pj == pi || !okJ || sj == 0 {
+				continue
+			}
+			d, okD := affOf(pi.init).Add(affOf(pj.init), -1).IsConst()
+			if !okD {
+				continue
+			}
+			all := true
+			for _, it := range iters {
+				n := it.Next[pi.lv.Name]
+				if n == nil {
+					all = false
+					break
+				}
+				c0, okC := affOf(n).Add(affOf(pj.lv), -1).IsConst()
+				if !okC || c0 != sj+d {
+					all = false
+					break
+				}
+			}
+			if all {
+				pi.lv.Aux = sj
+				break
+			}
+		}
+	}
 	// trip count
-	count, bounded := e.tripCount(h, ifr, lc, iters)
+	count, bounded := e.tripCount(counterBlock, ifr, lc, iters)
 	if bounded == "" && len(iters) > 0 {
 		// a slice that loses at least one element on every iteration: at most len(initial slice) iterations
 		for _, pi := range phis {
@@ -1630,7 +1802,7 @@ func (e *Engine) execLoop(st *state, fr *frame, h, prev *ssa.BasicBlock, body ma
 		for k, v := range o.st.allocT {
 			nst.allocT[k] = v
 		}
-		early := len(o.st.events) > 0 || o.exitFrom != h
+		early := len(o.st.events) > 0 || (o.exitFrom != h && o.exitFrom != counterBlock)
 		ev := rep(early)
 		ev.NCond = len(nst.conds)
 		nst.events = append(nst.events, ev)
@@ -2169,8 +2341,8 @@ func (e *Engine) loopOutVal(phiType types.Type, init, lv *Val, iters []*Arm, cou
 				ok = false
 				break
 			}
-			if n.Key() != lv.Key() {
-				same = false
+			if n.Key() != lv.Key() && !(init != nil && n.Key() == init.Key() && (n.IsConst() || n.IsNilConst())) {
+				same = false // (re-assigning the constant it started with leaves it as it was)
 			}
 			if n.Op == "call" && n.Name == "append" && len(n.Args) == 2 && n.Args[0].Key() == lv.Key() {
 				elems = append(elems, n.Args[1])
